@@ -1486,7 +1486,37 @@ def einsum(spec, *ops):
                         r = r + _mulz(pcs.a[i, j, k], x.a[l, j, k])
                     out[l, k, i] = cast_elem(r, dt)
         return ndarray(out, dt)
-    raise Inconclusive('einsum ' + spec)
+    # generic explicit einsum 'ab,bc->ac' (no ellipsis, no repeated output index)
+    if '->' not in spec or '.' in spec:
+        raise Inconclusive('einsum ' + spec)
+    ins, outs = spec.replace(' ', '').split('->')
+    ins = ins.split(',')
+    arrs = [asarray(o) for o in ops]
+    if len(ins) != len(arrs):
+        raise ValueError('einsum operand count')
+    dims = {}
+    for sub, a in zip(ins, arrs):
+        if len(sub) != a.ndim:
+            raise ValueError('einsum subscripts do not match operand rank')
+        for ch, d in zip(sub, a.shape):
+            if dims.setdefault(ch, d) != d:
+                raise ValueError('einsum dimension mismatch for %s' % ch)
+    contracted = [ch for ch in dims if ch not in outs]
+    dt = _fdt(*arrs)
+    oshape = tuple(dims[ch] for ch in outs)
+    out = _obj(oshape)
+    for oidx in _np.ndindex(oshape):
+        env_ = dict(zip(outs, oidx))
+        r = 0
+        for cidx in _np.ndindex(tuple(dims[ch] for ch in contracted)):
+            env_.update(zip(contracted, cidx))
+            term = None
+            for sub, a in zip(ins, arrs):
+                v = a.a[tuple(env_[ch] for ch in sub)]
+                term = v if term is None else _mulz(term, v)
+            r = r + term
+        out[oidx] = cast_elem(r, dt)
+    return ndarray(out, dt)
 
 
 def average(x, axis=None, weights=None):
